@@ -414,6 +414,10 @@ def fmt_atom(a):
         if len(a) == 6 and a[1] == "col":
             row = ":" if a[3] == "i" else fmt_idx(a[3])
             return "%s[%s,%s]" % (a[2], row, a[5])
+        if len(a) == 5 and a[1] == "pos":
+            return "%s[%s][%s]" % (a[2], a[3], fmt_idx(a[4]))
+        if len(a) >= 4 and a[1] == "tbl":
+            return "net.%s.%s%s" % (a[2], a[3], "[filtered]" if len(a) > 4 else "")
         if len(a) >= 3 and a[1] == "gather":
             return "%s[%s]" % (".".join(map(str, a[2])) if isinstance(a[2], tuple) else a[2], fmt_idx(a[3]))
         return ".".join(str(x) for x in a[1:])
